@@ -154,6 +154,10 @@ def enc_twice_jobs():
             tier = "quick" if (bi in (0, 1) or pi in (0, 1)) and not (bi == 3 and pi > 1) else "thorough"
             jobs.append(Job("enc.cpp", "h_enc_twice", defs=dd, unwind=1200, tier=tier, in_max=enc_in_max(d) + 160, mem_gb=4,
                             sym=ENC_SYM + "; the earlier call's payload, timestamp and flags; its version is the batch's version xor 0x5A", outside=ENC_OUT))
+    for d, tier in ((enc_shape([8]), "quick"), (enc_shape([41]), "quick"), (enc_shape([8, 8], [1, 3]), "thorough")):
+        dd = dict(d, PL0=8, PRIOR2=1)
+        jobs.append(Job("enc.cpp", "h_enc_twice", defs=dd, unwind=1200, tier=tier, in_max=enc_in_max(d) + 176, mem_gb=4,
+                        sym=ENC_SYM + "; the earlier batch's payloads, timestamp and flags", outside=ENC_OUT))
     # a configuration change between the two calls: the second call's frames carry the new ids and restart at counter 1
     for cfg, d, tier in ((1, enc_shape([8]), "quick"), (2, enc_shape([41]), "quick"), (3, enc_shape([8, 8], [1, 3]), "quick"), (4, enc_shape([17], maxb=40), "quick"),
                          (1, enc_shape([41]), "thorough"), (2, enc_shape([8, 8], [1, 3]), "thorough"), (3, enc_shape([41]), "thorough"), (4, enc_shape([8, 8]), "thorough")):
